@@ -30,7 +30,17 @@ pub trait Get {
 //@@ endfn
 }
 
-pub open spec fn is_prefix(a: Seq<u8>, b: Seq<u8>) -> bool { a.len() <= b.len() && b.subrange(0, a.len() as int) == a }
+pub mod prefix_lemmas {
+use vstd::prelude::*;
+pub open spec fn is_prefix(a: Seq<u8>, b: Seq<u8>) -> bool { a.len() <= b.len() && b.subrange(0, a.len() as int) =~= a }
+pub broadcast proof fn lemma_prefix_refl(a: Seq<u8>) ensures #[trigger] is_prefix(a, a) {}
+pub broadcast proof fn lemma_prefix_trans(a: Seq<u8>, b: Seq<u8>, c: Seq<u8>)
+    requires #[trigger] is_prefix(a, b), #[trigger] is_prefix(b, c) ensures is_prefix(a, c)
+{ assert(c.subrange(0, a.len() as int) =~= b.subrange(0, a.len() as int)); }
+pub broadcast proof fn lemma_prefix_add(a: Seq<u8>, b: Seq<u8>) ensures #[trigger] is_prefix(a, a.add(b)) { assert(a.add(b).subrange(0, a.len() as int) =~= a); }
+pub broadcast group group_prefix { lemma_prefix_refl, lemma_prefix_trans, lemma_prefix_add }
+}
+pub use prefix_lemmas::is_prefix;
 
 pub mod processor_trait {
 use vstd::prelude::*;
@@ -68,8 +78,8 @@ pub trait Process {
             // (P2) a stage that becomes "done" says Break; and Break means no later row can change the output
             r is Ok && !old(self).must_break() && final(self).must_break() ==> r->Ok_0 is Break, // @tobl P2.break
             r is Ok && r->Ok_0 is Break ==> forall|rows: Seq<Context>| #[trigger] final(self).fut(rows) == final(self).fut(Seq::empty()), // @tobl P2.done
-            // (P3) on failure nothing already written is lost
-            r is Err ==> is_prefix(old(self).log(), final(self).log()), // @tobl P3
+            // (P3) whatever happens (also on failure) nothing already written is lost or changed
+            is_prefix(old(self).log(), final(self).log()), // @tobl P3
             // eager sinks
             old(self).eager() ==> final(self).eager(),
             old(self).eager() && r is Ok ==> final(self).log() == old(self).log().add(old(self).fut(seq![context]))
@@ -83,7 +93,7 @@ pub trait Process {
         ensures final(self).inv(), // @tobl inv
             // (P4) end of input flushes exactly fut([])
             r is Ok ==> final(self).log() == old(self).log().add(old(self).fut(Seq::empty())), // @tobl P4
-            r is Err ==> is_prefix(old(self).log(), final(self).log()), // @tobl P3
+            is_prefix(old(self).log(), final(self).log()), // @tobl P3
             old(self).eager() && r is Ok ==> final(self).log() == old(self).log(), // @tobl eager.complete
 //@@ endfn
 }
